@@ -577,6 +577,10 @@ func ruleErrUsed(w *World, r *Report, in map[*ssa.Function]bool) {
 				// tested?
 				if errTested(f, e, ee) {
 					r.Add(Obligation{Rule: "ERRUSED", Key: key, Pos: pos, Status: Discharged, Detail: "parse error is tested and the failing edge leads to failure returns only", Canary: can})
+				} else if errFlowsOn(ee) {
+					// the error (or its comparison with nil) is carried on in a variable, returned, wrapped or
+					// handed to a helper: it is not dropped, the rule just cannot follow it
+					r.Add(Obligation{Rule: "ERRUSED", Key: key, Pos: pos, Status: Undecided, Detail: "parse error is carried on (flag, returned or wrapped value) instead of being tested in place (" + shortInstr(c) + ")", Canary: can})
 				} else {
 					r.Add(Obligation{Rule: "ERRUSED", Key: key, Pos: pos, Status: Violated, Detail: "parse error is read but no test of it leads to a failure return on the non-nil edge (" + shortInstr(c) + ")", Canary: can})
 				}
@@ -726,4 +730,31 @@ func (e *scEngine) checkTwoPass(f *ssa.Function, sc scenario) (Status, string) {
 		return Undecided, why + ", but only past test(s) of the argument the analysis could not evaluate (" + abbrev(strings.Join(tests, "; "), 240) + ")"
 	}
 	return Violated, why
+}
+
+// errFlowsOn: the error value, or its comparison with nil, is used other than
+// directly as a branch condition: stored in a flag (phi / conjunction),
+// returned, wrapped, or passed to a call.
+func errFlowsOn(ev ssa.Value) bool {
+	for _, ref := range *ev.Referrers() {
+		switch x := ref.(type) {
+		case *ssa.Return, *ssa.Phi, *ssa.Store, *ssa.MakeInterface, *ssa.ChangeInterface:
+			return true
+		case *ssa.Call:
+			return true
+		case *ssa.BinOp:
+			if x.Referrers() == nil {
+				continue
+			}
+			for _, r2 := range *x.Referrers() {
+				switch r2.(type) {
+				case *ssa.If:
+				case *ssa.DebugRef:
+				default:
+					return true // flag = err == nil, ok && err == nil, ...
+				}
+			}
+		}
+	}
+	return false
 }
